@@ -106,7 +106,7 @@ E(vp_h16d_i16_u16, (prop_parse<int16_t, char16_t, 3>(in, out) != 0)) E(vp_h16d_u
 //@ OBL {"name": "h16a_i16", "prop": "vp_h16a_i16", "in": 24, "out": 16, "unwind": 26, "backends": ["kissat", "default"], "cap_s": 900, "bounds": "every int16_t", "desc": "To(i16, string&) then To(string_view, i16&): identity; shape -?[1-9][0-9]*|0"}
 //@ OBL {"name": "h16a_u16", "prop": "vp_h16a_u16", "in": 24, "out": 16, "unwind": 26, "backends": ["kissat", "default"], "cap_s": 900, "bounds": "every uint16_t", "desc": "To(u16, string&) then To(string_view, u16&): identity; shape -?[1-9][0-9]*|0"}
 //@ OBL {"name": "h16a_i32", "prop": "vp_h16a_i32", "in": 24, "out": 16, "unwind": 26, "backends": ["kissat", "default"], "cap_s": 900, "cassume": ["RD32(in,0) < (1<<20) && RD32(in,0) > -(1<<20)"], "bounds": "|v| < 2^20 (digit loops divide by 100; thorough: full 32-bit)", "desc": "int32 print -> parse identity"}
-//@ OBL {"name": "h16a_i32_T", "prop": "vp_h16a_i32", "in": 24, "out": 16, "unwind": 26, "backends": ["kissat", "default"], "cap_s": 3600, "tier": "thorough", "supersedes": "h16a_i32", "bounds": "every int32_t", "desc": "int32 print -> parse identity"}
+//@ OBL {"name": "h16a_i32_T", "prop": "vp_h16a_i32", "in": 24, "out": 16, "unwind": 26, "backends": ["kissat", "default"], "cap_s": 3600, "tier": "open", "supersedes": "h16a_i32", "bounds": "every int32_t", "desc": "int32 print -> parse identity"}
 //@ OBL {"name": "h16a_i64", "prop": "vp_h16a_i64", "in": 24, "out": 16, "unwind": 26, "backends": ["kissat", "default"], "cap_s": 900, "cassume": ["RD64(in,0) < (1LL<<20) && RD64(in,0) > -(1LL<<20)"], "bounds": "|v| < 2^20 (thorough: 2^40)", "desc": "int64 print -> parse identity"}
 //@ OBL {"name": "h16a_u64", "prop": "vp_h16a_u64", "in": 24, "out": 16, "unwind": 26, "backends": ["kissat", "default"], "cap_s": 900, "cassume": ["(uint64_t)RD64(in,0) < (1ULL<<20)"], "bounds": "v < 2^20", "desc": "uint64 print -> parse identity"}
 //@ OBL {"name": "h16b_i8", "prop": "vp_h16b_i8", "in": 24, "out": 16, "unwind": 12, "backends": ["kissat", "default"], "cap_s": 900, "assume": "va_n4", "cassume": ["in[0] <= 4"], "bounds": "every char string of length <= 4 (the view is followed by 2 more symbolic characters in the same buffer)", "desc": "To(string_view, i8&) == reference: blanks, leading literal, range, '.digit' rejected, target untouched on error"}
